@@ -9,7 +9,7 @@ from props import C06 as base
 PROP = "C08"
 META = {
     "technique": "Coq proof: the pipe's global inductive invariant (ownership of every slot as multiset accounting + ghost leases held by the pinned front slice or a parked slice) preserved by every operation of the model; tie: differential execution of the real linkedBuffer pair against the model (incl. the model's lease check) + an oracle that re-compares every handed-out slice after every later op",
-    "level_text": "Theorem C08: in every state reachable by ANY op sequence (writes, flushes, reads of any size, releases, and allocations / overwrites / frees by other owners interleaved arbitrarily) every live lease's slot is in no free list, is not a slice of the send buffer, is held by no other owner, and denotes exactly the bytes handed out; C08_release_frees: after ReleasePreviousRead every parked slot is free again; C08_lease_only_fast_*: only fast-path ReadBytes/Peek results alias shared memory, every slow-path result is a copy. Results that came through the socket fallback (heap slices) are covered by the level (ii) family: real session pairs, results kept while later events arrive on the connection.",
+    "level_text": "Theorem C08: in every state reachable by ANY op sequence (writes, flushes, reads of any size, releases, and allocations / overwrites / frees by other owners interleaved arbitrarily) every live lease's slot is in no free list, is not a slice of the send buffer, is held by no other owner, and denotes exactly the bytes handed out; C08_duplex: the same for both directions of a stream pair incl. Stream.ReleaseReadAndReuse with its swap; C08_release_frees: after ReleasePreviousRead every parked slot is free again; C08_lease_only_fast_*: only fast-path ReadBytes/Peek results alias shared memory, every slow-path result is a copy. Results that came through the socket fallback (heap slices) are covered by the level (ii) family: real session pairs, results kept while later events arrive on the connection.",
     "level_note": "Trusted: coqc kernel; model tied to /repo by sampled differential runs (level (i) linkedBuffer pairs incl. the real Stream.ReleaseReadAndReuse; level (ii) real session pairs, fallback transport); sequential histories.",
 }
 
